@@ -52,6 +52,7 @@ def run(prop, tier, seed):
         for ver in "234":
             for v in corpus.extremal_vectors(rnd, ver):
                 ext += [v[3], "x " + v[3] + " y", "(" + v[3] + ")", v[3] + "\n" + v[3], v[3] + "x", "CVSS:" + v[3]]
+        ext += [x for v in corpus.prefix_variants(rnd) for x in (v, "see " + v + ".")]
         texts = gen + ext + assembled_texts(rnd, 4000 if not big else 80000) + corpus.arbitrary_text(rnd, 1500 if not big else 20000)
         texts = list(dict.fromkeys(texts))
         items = [{"op": "text", "text": esc(t)} for t in texts]
